@@ -96,6 +96,11 @@ func c15Gen(tier string, seed int64) []fw.Case {
 		dd := d
 		cases = append(cases, fw.Case{Name: fmt.Sprintf("pong-at-expiry/%s/%s", d.Role, d.Reader), Desc: dd, Run: func(r *fw.R) { c15PongAtExpiry(r, dd) }})
 	}
+	for i := 0; i < tierPick(tier, 6, 24); i++ {
+		d := c15Desc{Kind: "behind-stuck-writer", Seed: rng.U64(), Role: bothRoles[i%2], Params: allParams[(i/2)%len(allParams)], Reader: "Read"}
+		dd := d
+		cases = append(cases, fw.Case{Name: fmt.Sprintf("behind-stuck-writer/%s/%s", d.Role, paramsKey(d.Params)), Desc: dd, Run: func(r *fw.R) { c15BehindStuckWriter(r, dd) }})
+	}
 	m := tierPick(tier, 200, 4000)
 	for i := 0; i < m; i++ {
 		d := c15Desc{Kind: "received", Seed: rng.U64()}
@@ -762,4 +767,90 @@ func c15PongAtExpiry(r *fw.R, d c15Desc) {
 		}
 	}
 	r.Key("pong-at-expiry/%s/%s/%s", d.Role, d.Reader, paramsKey(d.Params))
+}
+
+// c15BehindStuckWriter: an application Write is stuck in the transport (the peer does not read) and holds the
+// frame lock. (1) A Ping call queued behind it returns promptly once ITS context ends. (2) A Ping frame that
+// arrives meanwhile cannot be answered for more than 5 s: the library may give up on the connection - what it
+// may not do is stay connected, drop that Ping and answer a later one.
+func c15BehindStuckWriter(r *fw.R, d c15Desc) {
+	r.SetSample(d)
+	c, _, peerEnd, err := libConn(d.Role, d.Params, 0, xport.Plan{Capacity: 2000}, xport.Plan{})
+	if err != nil {
+		r.Violate("C15/attach-failed", err.Error(), "")
+		return
+	}
+	defer c.CloseNow()
+	defer peerEnd.Close()
+	peer := newRawPeer(peerEnd, d.Role, d.Params, d.Seed)
+	peer.Paused.Store(true)
+	peer.Start()
+	base, cancel := context.WithTimeout(context.Background(), 60*time.Second)
+	defer cancel()
+	go func() {
+		for {
+			if _, _, err := c.Read(base); err != nil {
+				return
+			}
+		}
+	}()
+	rng := fw.NewRand(d.Seed)
+	wdone := make(chan error, 1)
+	go func() { wdone <- c.Write(base, websocket.MessageBinary, rng.Bytes(200000)) }()
+	time.Sleep(50 * time.Millisecond) // the Write has filled the 2000 byte window and is stuck
+	what := fmt.Sprintf("%s %s", d.Role, paramsKey(d.Params))
+	// (1)
+	pctx, pc := context.WithTimeout(base, 300*time.Millisecond)
+	t0 := time.Now()
+	perr := c.Ping(pctx)
+	el := time.Since(t0)
+	pc()
+	r.Count("ping_calls", 1)
+	r.Key("behind-stuck-writer/%s/%s", d.Role, paramsKey(d.Params))
+	if perr == nil {
+		r.Violate("C15/ping-completed-without-own-pong/behind-stuck-writer", what+": a Ping queued behind a Write that is stuck in the transport returned nil", "")
+		return
+	}
+	if el > 2300*time.Millisecond {
+		r.Violate("C15/ping-outlives-its-context/behind-stuck-writer", fmt.Sprintf("%s: Ping with a 300 ms context, queued behind a Write that is stuck in the transport, returned after %v (%v)", what, el.Round(10*time.Millisecond), perr), "")
+		return
+	}
+	// (2)
+	peer.Send(wire.Ping([]byte("A")))
+	time.Sleep(5600 * time.Millisecond)
+	peer.Paused.Store(false)
+	time.Sleep(100 * time.Millisecond)
+	peer.Send(wire.Ping([]byte("B")))
+	peer.Wait(2*time.Second, func() bool {
+		for _, p := range peer.Conf.Pongs {
+			if string(p) == "B" {
+				return true
+			}
+		}
+		return false
+	})
+	peer.Locked(func() {
+		var got []string
+		for _, p := range peer.Conf.Pongs {
+			got = append(got, string(p))
+		}
+		ia, ib := -1, -1
+		for i, g := range got {
+			if g == "A" && ia < 0 {
+				ia = i
+			}
+			if g == "B" && ib < 0 {
+				ib = i
+			}
+		}
+		r.Count("pings_received_while_the_frame_lock_was_held_for_5s", 1)
+		if ib >= 0 && (ia < 0 || ia > ib) {
+			r.Violate("C15/received-ping-skipped", fmt.Sprintf("%s: Ping A arrived while a stuck Write held the frame lock for over 5 s, Ping B after it had been released: the Pongs received are %q - the connection stayed up, A was dropped and B answered", what, got), "")
+		}
+	})
+	c.CloseNow()
+	select {
+	case <-wdone:
+	case <-time.After(10 * time.Second):
+	}
 }
